@@ -6,6 +6,7 @@ import SarpyModel.Drivers.Layout
 import SarpyModel.Drivers.Sidd
 import SarpyModel.Drivers.Cphd
 import SarpyModel.Drivers.Codec
+import SarpyModel.Drivers.Geo
 namespace Sarpy.Drivers
 
 def step (line : String) : String :=
@@ -19,6 +20,7 @@ def step (line : String) : String :=
   | "sidd" :: rest => (siddStep rest).getD "bad-op"
   | "cphd" :: rest => (cphdStep rest).getD "bad-op"
   | "codec" :: rest => (codecStep rest).getD "bad-op"
+  | "geo" :: rest => (geoStep rest).getD "bad-op"
   | _ => "bad-op"
 
 partial def loop (h : IO.FS.Stream) : IO Unit := do
